@@ -35,6 +35,10 @@ ASSUME = [
     "(later recv 0 / send EPIPE) and the other end sees a reset; a close with unread data is a reset, otherwise a FIN; the first "
     "send after the peer's FIN is accepted and the next fails with EPIPE, or fails at once (both explored); ux/uxf run on real "
     "AF_UNIX SEQPACKET sockets",
+    "I/O deviations offered: short counts (1 byte, half, all but one), persistent write stall, trickle, accept EAGAIN, EPIPE at once "
+    "on the first send after the peer's FIN; the single-shot 'EAGAIN although data is queued' answer is left out: before the peer's "
+    "FIN it equals a schedule in which the reader runs before the writer (enumerated anyway), after the FIN no kernel gives it "
+    "(TCP delivers the data before the FIN)",
     "non-blocking sockets only (the blocking forms are loops around the same transport calls)",
     "EPIPE is the 'closed' class: after it xcm_receive may return 0 or -1/EPIPE and xcm_finish 0 or -1/EPIPE; once an explicit "
     "xcm_send/xcm_finish has reported the end of an orderly-closed connection both 'drain, then 0' and 'nothing succeeds any more' "
@@ -90,7 +94,7 @@ def configs(tier, exe):
         # (the leading f completes the TLS handshake: an endpoint that waits for its peer's end does not service its socket)
         for sa, sb in (("fswR", "fssfc"), ("fswsssR", "fssfc"), ("fswfsR", "fssfc"), ("fwR", "fssfc"), ("fsfwR", "frssfc"),
                        ("fsfwsssR", "frssfc")):
-            if q and tp in TLS and sa in ("fswfsR", "fsfwsssR"):
+            if q and tp in TLS and not (sa == "fswR" or (tp == "tls" and sa == "fwR")):
                 continue
             c.append(("tp=%s,mode=pair,sa=%s,sb=%s,%s" % (tp, sa, sb, MENU), d))
     # the client sends, flushes and closes at once; the server side completes its handshake only afterwards
@@ -142,14 +146,79 @@ COUNTERS = {0: "api_calls_judged", 1: "terminal_reports_judged", 2: "stickiness_
             4: "raw_cut_cases", 6: "raw_cut_beyond_stream"}
 
 
+def _explore_all(chk, cfgs, jobs, deadline_s):
+    """msgfamily.run_configs with one addition: a child killed by the explorer's 60 s real-time watchdog that does NOT
+    die again when its choice list is replayed is an overload artefact of the machine, not a verdict; the configuration
+    is explored again (once) and only a second occurrence makes the check broken."""
+    exes = {}
+    t_end = time.time() + deadline_s
+    tot = dict(executions=0, states=0, transitions=0, outcomes=0, points=0)
+    counters = [0] * 24
+    per_cfg, samples = [], []
+    completed_all = True
+    for cfg in cfgs:
+        params, bound = cfg[0], cfg[1]
+        variant = cfg[2] if len(cfg) > 2 else "plain"
+        if msgfamily.needs_tls(params) and "certs=" not in params:
+            params += "," + msgfamily.certs()
+        if variant not in exes:
+            exes[variant] = harnesses.build_explorer_harness("h_term", variant=variant, extra_wraps=["mc_choose"])
+        env = harnesses.asan_env() if variant == "asan" else None
+        res = None
+        for attempt in (0, 1):
+            left = t_end - time.time()
+            if left < 3:
+                break
+            res = harnesses.explore(exes[variant], params, bound, left, jobs=jobs, env=env)
+            flaky = [v for v in res.get("violations", [])
+                     if v["signature"].startswith("crash/SIGALRM(watchdog)") and not v.get("reproduced")]
+            if not flaky:
+                break
+            chk.info("C06/watchdog-overload", "a child of '%s' was killed by the 60 s watchdog and ran normally on replay "
+                     "(machine overload); configuration explored again" % cfg[0])
+            if attempt == 0:
+                res = None
+        if res is None:
+            chk.deadline_hit = True
+            completed_all = False
+            per_cfg.append(dict(params=cfg[0], bound=bound, build=variant, skipped="tier deadline reached"))
+            continue
+        harnesses.merge_into(chk, res, PREFIXES, cfg[0], build_variant=variant)
+        tot["executions"] += res.get("executions", 0)
+        tot["states"] += res.get("states", 0)
+        tot["transitions"] += res.get("transitions", 0)
+        tot["outcomes"] += res.get("distinct_outcomes", 0)
+        tot["points"] += res.get("points_total", 0)
+        for i, c in enumerate(res.get("counters", [])[:24]):
+            counters[i] += c
+        if res.get("completed_bound", -1) < bound:
+            completed_all = False
+        per_cfg.append(dict(params=cfg[0], bound=bound, build=variant, completed_bound=res.get("completed_bound"),
+                            executions=res.get("executions"), states=res.get("states"),
+                            transitions=res.get("transitions"), distinct_outcomes=res.get("distinct_outcomes"),
+                            executions_per_level=res.get("executions_per_level"),
+                            max_choice_points=res.get("max_points"), wall_s=round(res.get("elapsed", 0), 2)))
+        for smp in res.get("samples", [])[:1]:
+            if len(samples) < 12:
+                samples.append(dict(scenario=cfg[0], execution=smp))
+    chk.add_cov(states=tot["states"], transitions=tot["transitions"], traces_validated_against_impl=tot["executions"],
+                executions=tot["executions"], evaluations=tot["executions"], distinct_outcomes_summed=tot["outcomes"],
+                choice_points_total=tot["points"], configurations=len(cfgs), per_configuration=per_cfg, samples=samples,
+                exhaustive=completed_all and not chk.deadline_hit)
+    chk.add_cov(**{n: counters[i] for i, n in COUNTERS.items()})
+
+
 def run(chk, tier, jobs, deadline):
     chk.assumptions += ASSUME
     msgfamily.ensure_pki()
     exe = harnesses.build_explorer_harness("h_term", extra_wraps=["mc_choose"])
     cfgs = configs(tier, exe)
-    msgfamily.run_configs(chk, "h_term", cfgs, PREFIXES, jobs, deadline or (300 if tier == "quick" else 2400),
-                          extra_build=dict(extra_wraps=["mc_choose"]), counter_names=COUNTERS)
-    chk.add_cov(transports=list(T) + ["ux", "uxf"],
+    _explore_all(chk, cfgs, jobs, deadline or (600 if tier == "quick" else 2700))
+    by_family = {}
+    for c in cfgs:
+        fam = "raw" if "mode=raw" in c[0] else "conn" if "mode=conn" in c[0] else "fault" if "fd=1" in c[0] else "close"
+        by_family[fam] = by_family.get(fam, 0) + 1
+    chk.add_cov(transports=list(T) + ["ux", "uxf"], configurations_by_family=by_family,
                 errnos_injected=["ECONNRESET", "ETIMEDOUT", "EHOSTUNREACH", "ENETUNREACH", "EPIPE"],
                 connect_outcomes=["ECONNREFUSED", "ETIMEDOUT", "EHOSTUNREACH", "ENETUNREACH", "ECONNRESET",
                                   "silent peer until tcp.connect_timeout"])
